@@ -244,6 +244,9 @@ OkMeta(rk, ret) ==
                            execution_payload_value |-> ret.ev, hev |-> ret.ev,
                            consensus_block_value |-> ret.cv, hcv |-> ret.cv] @@ NoMeta
     [] OTHER -> NoMeta
+\* the duties and validators endpoints promise "empty json array instead of null"; the selections endpoints have no such line: an
+\* empty answer of the Handler may come out as [] or as null (the client logs the digest "null" for it)
+DataForms(rk, ret) == IF rk = "data" /\ ret.objs = <<>> THEN {<<>>, <<"null">>} ELSE {ret.objs}
 \* the possible answers after the Handler returned `ret`
 OutsAfter(c, ret) ==
   LET rk == T(c).rk IN
@@ -251,7 +254,7 @@ OutsAfter(c, ret) ==
   ELSE IF ret.kind = "err" THEN {ErrOut(500)}
   ELSE IF rk = "none" THEN {EmptyOut}
   ELSE IF RetFault(rk, ret) # 0 THEN {ErrOut(RetFault(rk, ret))}
-  ELSE {[status |-> 200, ctype |-> "json", code |-> 0, objs |-> ret.objs, meta |-> OkMeta(rk, ret)]}
+  ELSE {[status |-> 200, ctype |-> "json", code |-> 0, objs |-> o, meta |-> OkMeta(rk, ret)] : o \in DataForms(rk, ret)}
 \* proxy: Handler.Proxy's response is copied (status, headers, body); its error is a 500
 ProxyOut(ret) == IF ret.kind = "err" THEN ErrOut(500)
                  ELSE [status |-> ret.status, ctype |-> "other", code |-> 0, objs |-> <<ret.body>>, meta |-> [hup |-> ret.hdr] @@ NoMeta]
@@ -316,7 +319,7 @@ ClientFault4xx == Done /\ MalformedReq(c) => out.status \in 400..499
 ArgFidelity == hcalled => hcall.args = WantArgs(c) /\ (c.body.form # "wrongfork" /\ Table[c.ep].body \in {"objs", "idx"} => hcall.objs = c.sent)
 Get(m, k) == IF k \in DOMAIN m THEN m[k] ELSE "<absent>"
 RespFidelity == /\ Done /\ hcalled /\ hcall.ret.kind = "ok" /\ out.status = 200 =>
-                     /\ out.objs = (IF Table[c.ep].rk = "none" THEN <<>> ELSE hcall.ret.objs)
+                     /\ out.objs \in (IF Table[c.ep].rk = "none" THEN {<<>>} ELSE DataForms(Table[c.ep].rk, hcall.ret))
                      /\ Table[c.ep].rk = "proposal" => /\ Get(out.meta, "execution_payload_blinded") = hcall.ret.blinded /\ Get(out.meta, "hblinded") = hcall.ret.blinded
                                                         /\ Get(out.meta, "version") = hcall.ret.ver /\ Get(out.meta, "hversion") = hcall.ret.ver
                                                         /\ Get(out.meta, "hev") = hcall.ret.ev /\ Get(out.meta, "hcv") = hcall.ret.cv
